@@ -623,9 +623,32 @@ func ruleSkipSetKeyComplete(c *Check, rule string, pkgs ...string) {
 						}
 					}
 				}
+				// a set that is created inside an enclosing loop lives for one iteration of that loop: the
+				// enclosing loop's element is a constant for the set, not part of what it has to be keyed by
+				outerElems := map[string]bool{}
+				for _, o := range engine.Origins(lk.X) {
+					mk, isMk := o.(*ssa.MakeMap)
+					if !isMk || lp.Body[mk.Block()] {
+						continue
+					}
+					for _, ol := range engine.LoopsOf(fn) {
+						if ol.Header != lp.Header && ol.Body[mk.Block()] && ol.Body[lp.Header] && ol.RangedValue() != nil {
+							outerElems["element of "+strings.TrimPrefix(engine.ExprKey(ol.RangedValue()), "var:")] = true
+						}
+					}
+				}
 				var missing []string
 				for s := range used {
 					if !strings.HasPrefix(s, "element of ") || keySrc[s] {
+						continue
+					}
+					isOuter := false
+					for oe := range outerElems {
+						if s == oe || strings.HasPrefix(s, oe+".") {
+							isOuter = true
+						}
+					}
+					if isOuter {
 						continue
 					}
 					covered := false
@@ -660,6 +683,25 @@ func ruleSkipSetKeyComplete(c *Check, rule string, pkgs ...string) {
 							}
 							if lk2 != nil && engine.ExprKey(lk2.Index) == engine.ExprKey(lk.Index) {
 								derived = true
+							}
+							// ... also when that table is read through an accessor: a call whose only
+							// loop-variant argument is the key
+							if call, _ := engine.CallOf(o); call != nil && lk2 == nil {
+								if h := call.Common().StaticCallee(); h != nil && engine.IsFirstParty(pkgPathOf(h)) {
+									keyed, others := false, true
+									for _, arg := range call.Common().Args {
+										if engine.ExprKey(arg) == engine.ExprKey(lk.Index) {
+											keyed = true
+											continue
+										}
+										if in, isInstr := arg.(ssa.Instruction); isInstr && lp.Body[in.Block()] {
+											others = false
+										}
+									}
+									if keyed && others {
+										derived = true
+									}
+								}
 							}
 						}
 						// ... and so is a collection computed from the keyed element itself (its descendants, say)
